@@ -2,7 +2,7 @@
 import json
 import os
 
-from rules import hirq, mirq
+from rules import hirq, mirq, visit
 from rules.core import walk, norm_path, AnchorMissing, VERIF
 
 LEVEL = "other"
@@ -22,7 +22,8 @@ EXPLANATION = (
     "call sites route through it; R5 symbol unification: do_update_symbol's accepting exits are equality/"
     "concretisation, can_be_declared_as (authoritative previous), concretisation-or-can_coerce_into (authoritative "
     "new), everything else is ConflictingTypes; the coercion relations can_coerce_into / can_coerce_address_into / "
-    "can_be_declared_as equal the reviewed reference tables; R6 E5xx code table. Type inference over all programs is "
+    "can_be_declared_as equal the reviewed reference tables; R6 E5xx code table; R7 visitor completeness of the "
+    "function-call analyzer (every Expression child is analysed, so no call escapes use_function). Type inference over all programs is "
     "not decided.")
 
 RES = "alpha::resolver::"
@@ -301,6 +302,24 @@ def r6_codes(run, F):
         run.ob("R6-CODES", v, rows.get(v) == c, F.where(code), "Error::%s must have code %d (found %s)" % (v, c, rows.get(v)))
 
 
+def r7_visit(run, F):
+    """T2: the function-call analyzer reaches every Expression (a call in an unvisited child is never checked for arity/types)."""
+    C = F.lib
+    rel = visit.type_closure(C, {"alpha::common::Expression"})
+    impls = [b for b in C.bodies.values() if b.get("impl_trait") == "alpha::analyzer::function_calls::Analyzable" and "{closure" not in b["npath"]]
+    run.require(len(impls) >= 8, "function_calls Analyzable impls not found (%d)" % len(impls))
+    exceptions = {"Declaration::Constant.value": "function calls are rejected in constant expressions by the constness analyzer"}
+
+    def is_trav(c):
+        return c.endswith("function_calls::Analyzable>::analyze") or c == "alpha::analyzer::function_calls::Analyzable::analyze"
+    n = 0
+    for b in impls:
+        def rep(key, ok, where, detail, sample):
+            run.ob("R7-CALL-ANALYZER-VISITS", key, ok, where, detail + ": calls inside it are never checked against the callee's signature (E510-E513)", sample)
+        n += visit.check_impl(F, C, b, rel, is_trav, rep, exceptions=exceptions)
+    run.require(n >= 30, "too few visit obligations (%d)" % n)
+
+
 def check(run):
     F = run.facts("B")
     r1_tables(run, F)
@@ -309,9 +328,10 @@ def check(run):
     r4_calls(run, F)
     r5_unification(run, F)
     r6_codes(run, F)
+    r7_visit(run, F)
     if run.tier == "thorough":
         FA = run.facts("A")
         run.key_prefix = "cfgA:"
-        for fn in (r1_tables, r2_wiring, r3_r5_relations, r4_calls, r5_unification, r6_codes):
+        for fn in (r1_tables, r2_wiring, r3_r5_relations, r4_calls, r5_unification, r6_codes, r7_visit):
             fn(run, FA)
         run.key_prefix = ""
